@@ -45,6 +45,11 @@ CLAIMED = {
   "Trusted: go/ssa, gosym interpreter and scheduler, z3. Outside the claim: more than 2 slots/sessions, the SaCachethis=false path (XDR re-encoding), lock-owner seqids in 4.0 beyond LOCK-new-owner, loss/reordering histories longer than two requests.",
   "symbolic execution of go/ssa with symbolic sequence numbers (z3) and explored goroutine schedules, native replay",
   "DESIGN.md §4 C19"),
+ "C16": (
+  "Bounded symbolic model checking of the real code: (1) fileBackedFile reference counting, one step from an arbitrary valid state (symbolic numbers of links, read/write/read-write descriptors and frozen readers, reference/writable/frozen counters set accordingly): Link, Unlink, VirtualOpenSelf (every share mask, with/without O_TRUNC), VirtualClose, frozen open/close, VirtualWrite, truncation by VirtualSetAttributes: the pool file is closed exactly when the ghost total reaches zero and never twice, counters equal the ghost, operations on a dead file return ESTALE and never touch released storage; (2) the real uploadFile (waitAndOpenReadFrozen, digest computation, Put of a buffer over the frozen reader) racing with a writer thread and the writer-delay channel under all explored schedules: the reported digest equals the digest of the bytes the fake CAS received, no mutation runs while a frozen reader is consumed, a cached digest is reused only if nothing changed.",
+  "Trusted: go/ssa, gosym interpreter/scheduler, z3; SHA-256 is replaced by a deterministic mixing model under the engine (a collision could only hide a difference; native replays use the real hash). Outside the claim: Bazel Output Service stat path, fuse/nfs handle allocator link-count wrappers, virtualBuildDirectory.UploadFile plumbing, more than one writer/uploader, preemption bound.",
+  "SMT-based symbolic execution of go/ssa (inductive step from symbolic counters) + explored goroutine schedules, native replay",
+  "DESIGN.md §4 C16"),
 }
 
 PENDING_REASON = "check not registered yet (framework under construction; see DESIGN.md §6 build order)"
